@@ -4,6 +4,7 @@ package gosym
 
 import (
 	"fmt"
+	"go/token"
 	"go/types"
 	"regexp"
 	"sort"
@@ -318,6 +319,7 @@ func init() {
 		ex.observe = append(ex.observe, obsRec{strArg(a[0]), a[1]})
 		return nil
 	})
+	reg(rtPkg+".Note", func(ex *exec, fr *frame, fn *ssa.Function, a []value) value { return nil })
 	reg(rtPkg+".ExpectPanic", func(ex *exec, fr *frame, fn *ssa.Function, a []value) value {
 		ex.expectPanic = true
 		return nil
@@ -472,7 +474,24 @@ func init() {
 		return valStrings(strings.Split(strArg(a[0]), strArg(a[1])))
 	})
 	reg("strings.Join", func(ex *exec, fr *frame, fn *ssa.Function, a []value) value {
-		return strings.Join(nativeStrings(a[0]), strArg(a[1]))
+		parts, _ := a[0].([]value)
+		anySym := isSym(a[1])
+		for _, p := range parts {
+			if isSym(p) {
+				anySym = true
+			}
+		}
+		if !anySym {
+			return strings.Join(nativeStrings(a[0]), strArg(a[1]))
+		}
+		acc := ex.tt.Str("")
+		for i, p := range parts {
+			if i > 0 {
+				acc = ex.tt.Concat(acc, ex.toTerm(a[1]))
+			}
+			acc = ex.tt.Concat(acc, ex.toTerm(p))
+		}
+		return fromTerm(acc, types.String)
 	})
 	reg("strings.ToLower", func(ex *exec, fr *frame, fn *ssa.Function, a []value) value {
 		return strings.ToLower(strArg(a[0]))
@@ -528,12 +547,25 @@ func init() {
 	})
 	reg("sort.Strings", func(ex *exec, fr *frame, fn *ssa.Function, a []value) value {
 		s, _ := a[0].([]value)
+		anySym := false
 		for _, x := range s {
 			if isSym(x) {
-				panic(unsupported("sort.Strings on symbolic strings"))
+				anySym = true
 			}
 		}
-		sort.SliceStable(s, func(i, j int) bool { return s[i].(string) < s[j].(string) })
+		if !anySym {
+			sort.SliceStable(s, func(i, j int) bool { return s[i].(string) < s[j].(string) })
+			return nil
+		}
+		// insertion sort with symbolic comparisons (each comparison is a decision)
+		for i := 1; i < len(s); i++ {
+			for j := i; j > 0; j-- {
+				if !ex.truth(ex.binop(token.LSS, types.Typ[types.String], s[j], s[j-1])) {
+					break
+				}
+				s[j], s[j-1] = s[j-1], s[j]
+			}
+		}
 		return nil
 	})
 	reg("sort.Ints", func(ex *exec, fr *frame, fn *ssa.Function, a []value) value {
@@ -602,13 +634,27 @@ func init() {
 		return newUUID(ex)
 	})
 	reg("github.com/google/uuid.New", func(ex *exec, fr *frame, fn *ssa.Function, a []value) value {
-		return &opaque{kind: "uuid", data: newUUID(ex)}
+		// a uuid.UUID is [16]byte: bytes 0..1 carry the ordinal of the generated value, whose text is symbolic
+		s := newUUID(ex)
+		ex.uuidByOrd = append(ex.uuidByOrd, s)
+		n := len(ex.uuidByOrd)
+		arr := make(array, 16)
+		for i := range arr {
+			arr[i] = uint8(0)
+		}
+		arr[0], arr[1], arr[15] = uint8(n>>8), uint8(n), uint8(0xff)
+		return arr
 	})
 	reg("(github.com/google/uuid.UUID).String", func(ex *exec, fr *frame, fn *ssa.Function, a []value) value {
-		if o, ok := a[0].(*opaque); ok {
-			return o.data.(value)
+		if arr, ok := a[0].(array); ok && len(arr) == 16 {
+			hi, _ := arr[0].(uint8)
+			lo, _ := arr[1].(uint8)
+			n := int(hi)<<8 | int(lo)
+			if tag, _ := arr[15].(uint8); tag == 0xff && n >= 1 && n <= len(ex.uuidByOrd) {
+				return ex.uuidByOrd[n-1]
+			}
 		}
-		panic(unsupported("uuid.UUID.String on non-generated UUID"))
+		return notHandled{}
 	})
 
 	// ---------------- sync ----------------
